@@ -67,7 +67,7 @@ class Catalogue:
 AGG = ('array', 'struct', 'union')
 
 
-def type_cell(cat, label, null=False, only=None, exclude=()):
+def type_cell(cat, label, null=False, only=None, exclude=(), agg_sizes=None):
     """a fresh pointer-cell over the catalogue"""
     cands = []
     names = {}
@@ -77,6 +77,14 @@ def type_cell(cat, label, null=False, only=None, exclude=()):
         if only is not None and name not in only:
             continue
         if name in exclude:
+            continue
+        if agg_sizes and name in ('struct', 'union'):
+            # concrete aggregate sizes instead of one symbolic size (keeps size-driven loops finite)
+            for sz in agg_sizes:
+                o = Obj('Type', lazy=True, label='%s:%s%d' % (label, name, sz))
+                o.meta['cat'] = name
+                o.fields.update({'kind': int(f['kind']), 'size': sz, 'align': 8 if sz % 8 == 0 else (4 if sz % 4 == 0 else 1), 'is_unsigned': 0, 'base': 0})
+                cands.append(o)
             continue
         o = Obj('Type', lazy=True, label='%s:%s' % (label, name))
         o.meta['cat'] = name
